@@ -320,4 +320,164 @@ theorem rebuild_fuel : ∀ (f1 f2 : Nat) (cur : List Int) (st : RState), cur.Nod
             exact ih m cur' st' hnd (by omega) (by omega)
 
 end loop
+
+/-! ## 3. the invariant of the loop -/
+
+def elemOf (b : Block) (r : Int) : Int := ((b.nodes.find? fun a => a.key = r).map (·.elem)).getD 0
+
+theorem find_of_mem_keys {b : Block} {r : Int} (h : r ∈ b.keys) :
+    ∃ ref, b.nodes.find? (fun a => a.key = r) = some ref ∧ ref.key = r ∧ ref ∈ b.nodes := by
+  unfold Block.keys at h
+  obtain ⟨a, ha, hk⟩ := List.mem_map.1 h
+  cases hf : b.nodes.find? (fun a => decide (a.key = r)) with
+  | none =>
+    have := List.find?_eq_none.1 hf a ha
+    simp [hk] at this
+  | some ref =>
+    have h1 := List.find?_some hf
+    have h2 := List.mem_of_find?_eq_some hf
+    exact ⟨ref, rfl, by simpa using h1, h2⟩
+
+theorem dom_append (M N : Map) : dom (M ++ N) = dom M ++ dom N := by simp [dom]
+theorem ran_append (M N : Map) : ran (M ++ N) = ran M ++ ran N := by simp [ran]
+
+theorem mem_dom_of_mem {M : Map} {p : Int × Int} (h : p ∈ M) : p.1 ∈ dom M := List.mem_map.2 ⟨p, h, rfl⟩
+theorem mem_ran_of_mem {M : Map} {p : Int × Int} (h : p ∈ M) : p.2 ∈ ran M := List.mem_map.2 ⟨p, h, rfl⟩
+
+/-- what holds of `(missing, state)` throughout the rebuild loop of residue `R`; `nodes1`, `edges0`
+are the atoms (after step 1) and the edges the loop started from -/
+structure Inv (R : Residue) (nodes1 : List Atom) (edges0 : List (Int × Int)) (cur : List Int) (st : RState) : Prop where
+  nd : cur.Nodup
+  curSub : ∀ r ∈ cur, r ∈ R.block.keys
+  cover : ∀ r ∈ R.block.keys, r ∈ cur ∨ r ∈ dom st.mtch
+  disj : ∀ r ∈ cur, r ∉ dom st.mtch
+  domNd : (dom st.mtch).Nodup
+  keysNd : (st.nodes.map (·.key)).Nodup
+  ranKeys : ∀ k ∈ ran st.mtch, k ∈ st.nodes.map (·.key)
+  ranNd : (ran st.mtch).Nodup
+  mext : ∃ ext, st.mtch = R.mtch ++ ext ∧ ∀ p ∈ ext, p.2 ∉ nodes1.map (·.key)
+  next : ∃ new, st.nodes = nodes1 ++ new
+  named : ∀ p ∈ st.mtch, ∃ a ∈ st.nodes, a.key = p.2 ∧ a.name = nameOf R.block p.1 ∧ a.elem = elemOf R.block p.1
+  edgesNew : ∀ e ∈ R.block.edges, ∀ k1 k2, (e.1, k1) ∈ st.mtch → (e.2, k2) ∈ st.mtch →
+    ((e.1, k1) ∉ R.mtch ∨ (e.2, k2) ∉ R.mtch) → hasEdge st.edges k1 k2 = true
+  edgesOld : ∀ e ∈ st.edges, e ∈ edges0 ∨ e.1 ∉ nodes1.map (·.key) ∨ e.2 ∉ nodes1.map (·.key)
+  edgesMono : ∀ e ∈ edges0, e ∈ st.edges
+
+theorem inv_step (R : Residue) (nodes1 : List Atom) (edges0 : List (Int × Int)) (cur : List Int) (st : RState)
+    (r : Int) (h : Inv R nodes1 edges0 cur st) (hr : r ∈ cur) :
+    Inv R nodes1 edges0 (cur.erase r) (addAtom R st r) := by
+  obtain ⟨ref, hfind, hkey, hmem⟩ := find_of_mem_keys (h.curSub r hr)
+  have hk := maxKey_succ_not_mem (st.nodes.map (·.key))
+  generalize hkdef : maxKey (st.nodes.map (·.key)) + 1 = k at hk
+  have hadd : addAtom R st r =
+      { nodes := st.nodes ++ [newAtom R.common ref k],
+        edges := (newEdges R.block.edges (st.mtch ++ [(r, k)]) r k).foldl addEdge st.edges,
+        mtch := st.mtch ++ [(r, k)],
+        log := st.log ++ [Event.adding k ref.name (ref.elem == elemH)] } := by
+    unfold addAtom; rw [hfind]; simp only [hkdef]
+  rw [hadd]
+  have hrdom : r ∉ dom st.mtch := h.disj r hr
+  have hkran : k ∉ ran st.mtch := fun hc => hk (h.ranKeys k hc)
+  have hdomNd : (dom (st.mtch ++ [(r, k)])).Nodup := by
+    rw [dom_append]
+    refine List.nodup_append.2 ⟨h.domNd, by simp [dom], ?_⟩
+    intro a ha b hb
+    simp [dom] at hb; subst hb
+    intro e; subst e; exact hrdom ha
+  obtain ⟨new, hnew⟩ := h.next
+  have hk1 : k ∉ nodes1.map (·.key) := by
+    intro hc; apply hk; rw [hnew]; simp only [List.map_append, List.mem_append]; exact Or.inl hc
+  refine
+    { nd := h.nd.erase r
+      curSub := fun x hx => h.curSub x (List.mem_of_mem_erase hx)
+      cover := ?_, disj := ?_, domNd := hdomNd, keysNd := ?_, ranKeys := ?_, ranNd := ?_, mext := ?_,
+      next := ⟨new ++ [newAtom R.common ref k], by simp [hnew]⟩
+      named := ?_, edgesNew := ?_, edgesOld := ?_
+      edgesMono := fun e he => subset_foldl_addEdge _ (h.edgesMono e he) }
+  · -- cover
+    intro x hx
+    rcases h.cover x hx with hc | hc
+    · by_cases hxr : x = r
+      · right; rw [dom_append]; subst hxr; simp [dom]
+      · left; exact (List.mem_erase_of_ne hxr).2 hc
+    · right; rw [dom_append]; exact List.mem_append_left _ hc
+  · -- disj
+    intro x hx
+    have hx' := (List.Nodup.mem_erase_iff h.nd).1 hx
+    rw [dom_append]
+    simp only [List.mem_append, not_or]
+    exact ⟨h.disj x hx'.2, by simp [dom]; exact hx'.1⟩
+  · -- keysNd
+    simp only [List.map_append, List.map_cons, List.map_nil]
+    refine List.nodup_append.2 ⟨h.keysNd, by simp, ?_⟩
+    intro a ha b hb
+    simp [newAtom] at hb; subst hb
+    intro e; subst e; exact hk ha
+  · -- ranKeys
+    intro x hx
+    rw [ran_append] at hx
+    simp only [List.map_append, List.mem_append]
+    rcases List.mem_append.1 hx with hx | hx
+    · exact Or.inl (h.ranKeys x hx)
+    · right; simp [ran] at hx; subst hx; simp [newAtom]
+  · -- ranNd
+    rw [ran_append]
+    refine List.nodup_append.2 ⟨h.ranNd, by simp [ran], ?_⟩
+    intro a ha b hb
+    simp [ran] at hb; subst hb
+    intro e; subst e; exact hkran ha
+  · -- mext
+    obtain ⟨ext, he, hfresh⟩ := h.mext
+    refine ⟨ext ++ [(r, k)], by simp only [he, List.append_assoc], ?_⟩
+    intro p hp
+    rcases List.mem_append.1 hp with hp | hp
+    · exact hfresh p hp
+    · simp at hp; subst hp; exact hk1
+  · -- named
+    intro p hp
+    rcases List.mem_append.1 hp with hp | hp
+    · obtain ⟨a, ha, h1⟩ := h.named p hp
+      exact ⟨a, List.mem_append_left _ ha, h1⟩
+    · simp at hp; subst hp
+      refine ⟨newAtom R.common ref k, by simp, rfl, ?_, ?_⟩
+      · simp only [newAtom, nameOf]; rw [hfind]; rfl
+      · simp only [newAtom, elemOf]; rw [hfind]; rfl
+  · -- edgesNew
+    intro e he k1 k2 h1 h2 hnot
+    have hlk : ∀ q kq, (q, kq) ∈ st.mtch ++ [(r, k)] → (st.mtch ++ [(r, k)]).lookup q = some kq :=
+      fun q kq hq => Iso.lookup_of_mem hdomNd hq
+    have hnb := mem_nbrs_of_edge he
+    rcases List.mem_append.1 h1 with h1o | h1n
+    · rcases List.mem_append.1 h2 with h2o | h2n
+      · exact hasEdge_foldl_mono _ (h.edgesNew e he k1 k2 h1o h2o hnot)
+      · simp at h2n
+        obtain ⟨e2, hk2⟩ := h2n
+        -- e.2 = r is new: e.1 is a neighbour of r with a match
+        have : (k1, k) ∈ newEdges R.block.edges (st.mtch ++ [(r, k)]) r k := by
+          unfold newEdges
+          refine List.mem_filterMap.2 ⟨e.1, ?_, ?_⟩
+          · rw [← e2]; exact hnb.2
+          · rw [hlk e.1 k1 h1]; rfl
+        have := hasEdge_foldl_mem (es := st.edges) _ this
+        rw [hk2]; exact this
+    · simp at h1n
+      obtain ⟨e1, hk1'⟩ := h1n
+      have : (k2, k) ∈ newEdges R.block.edges (st.mtch ++ [(r, k)]) r k := by
+        unfold newEdges
+        refine List.mem_filterMap.2 ⟨e.2, ?_, ?_⟩
+        · rw [← e1]; exact hnb.1
+        · rw [hlk e.2 k2 h2]; rfl
+      have := hasEdge_foldl_mem (es := st.edges) _ this
+      rw [hk1', hasEdge_comm]; exact this
+  · -- edgesOld
+    intro e he
+    rcases mem_foldl_addEdge _ he with he | he
+    · exact h.edgesOld e he
+    · right; right
+      unfold newEdges at he
+      obtain ⟨q, _, hq⟩ := List.mem_filterMap.1 he
+      cases hl : (st.mtch ++ [(r, k)]).lookup q with
+      | none => simp [hl] at hq
+      | some kq => simp [hl] at hq; subst hq; exact hk1
+
 end C04
